@@ -210,3 +210,11 @@ def hold_until(path, value=None):
     while not os.path.exists(path):
         time.sleep(0.004)
     return ('held', value)
+
+
+def ctx_t1(x, k=0):
+    return ('t1', x, k)
+
+
+def ctx_t2(x, k=0):
+    return ('t2', x, k)
